@@ -390,6 +390,7 @@ pub trait Vec1View<T>: TIter<T> {
         Self: 'a,
         T: 'a,
     {
+        assert!(window > 0, "window must be greater than 0");
         let len = self.len();
         let window = window.min(len);
         if window == 0 {
@@ -449,6 +450,8 @@ pub trait Vec1View<T>: TIter<T> {
         V2: Vec1View<T2>,
         F: FnMut(Self::SliceOutput<'_>, V2::SliceOutput<'_>) -> OT,
     {
+        assert!(window > 0, "window must be greater than 0");
+        assert!(other.len() >= self.len(), "other must not be shorter than self");
         let iter = (1..self.len() + 1)
             .zip(std::iter::repeat_n(0, window - 1).chain(0..self.len()))
             .map(|(end, start)| unsafe {
@@ -561,6 +564,7 @@ pub trait Vec1View<T>: TIter<T> {
         T: Clone,
         F: FnMut(Option<T>, T) -> OT,
     {
+        assert!(window > 0, "window must be greater than 0");
         let len = self.len();
         let window = window.min(len);
         if window == 0 {
@@ -680,7 +684,9 @@ pub trait Vec1View<T>: TIter<T> {
     ) where
         F: FnMut(Option<(T, T2)>, (T, T2)) -> OT,
     {
+        assert!(window > 0, "window must be greater than 0");
         let len = self.len();
+        assert!(other.len() >= len, "other must not be shorter than self");
         let window = window.min(len);
         if window == 0 {
             return;
@@ -791,6 +797,7 @@ pub trait Vec1View<T>: TIter<T> {
         // start, end, value
         F: FnMut(Option<usize>, usize, T) -> OT,
     {
+        assert!(window > 0, "window must be greater than 0");
         let len = self.len();
         let window = window.min(len);
         if window == 0 {
@@ -912,7 +919,9 @@ pub trait Vec1View<T>: TIter<T> {
     ) where
         F: FnMut(Option<usize>, usize, (T, T2)) -> OT,
     {
+        assert!(window > 0, "window must be greater than 0");
         let len = self.len();
+        assert!(other.len() >= len, "other must not be shorter than self");
         let window = window.min(len);
         if window == 0 {
             return;
